@@ -33,6 +33,9 @@ pub const FRAMES: usize = 50;
 pub const RESID_MAX: f64 = TAU;
 /// Requested eigenvalues below DYN·λ₁ put a case into the "wide dynamic range" class (see check_pca).
 pub const DYN: f64 = 1e-4;
+/// Generated data have (n−1)·λ₁ (largest eigenvalue of Xc^T Xc) of order 1 or more; below SCALE_MIN (reachable only by
+/// shrinking towards constant data) a case is not judged: the solver's absolute stopping tolerance 1e-10 is then no tolerance at all.
+pub const SCALE_MIN: f64 = 1e-3;
 /// Design domain: singular ratio sigma_1/sigma_k <= 1e3, i.e. lambda_k >= RANGE_MIN·lambda_1.
 pub const RANGE_MIN: f64 = 1e-6;
 
@@ -118,7 +121,7 @@ pub fn check_pca(c: &Case, obs: &mut Obs) {
     let lam1 = lam.first().copied().unwrap_or(0.0);
     // constant (or constant up to round-off) data is not in the generator's domain; shrinking can reach it
     let x_max0 = max_abs(&x);
-    if !(lam1 > 1e-16 * x_max0 * x_max0) || !lam1.is_finite() {
+    if !(lam1 > 1e-16 * x_max0 * x_max0) || !lam1.is_finite() || (n as f64 - 1.0) * lam1 < SCALE_MIN {
         obs.skip("degenerate_covariance");
         return;
     }
